@@ -129,12 +129,47 @@ def n2w_bench(name, dw=32, base=0, addressing="word", aw_native=6):
     WL = Signal(max=nb, name_override="WL")
     mem = Signal(8, name_override="mem_byte")
     ref = Signal(8, name_override="ref_byte")
-    env = memstub.NativeUserEnv(port, WA, WL, ref, qdepth=2, flush_input=False, last_input=False)
-    top.submodules.env = env
-    inputs = dict(env.inputs)
-    assumes = dict(env.assumes)
-    bads = dict(env.bads)
+    # native master of the reverse bridge: command and write data are independent streams -- the data beat of a write may be
+    # offered before, with or (any number of cycles) after its command, each held until taken; reads always accept their data
+    class _Env:
+        pass
+    env = _Env()
+    inputs = {"user_cmd_valid": port.cmd.valid, "user_cmd_we": port.cmd.we, "user_cmd_addr": port.cmd.addr,
+              "user_wdata_valid": port.wdata.valid, "user_wdata_data": port.wdata.data, "user_wdata_we": port.wdata.we}
+    top.comb += port.rdata.ready.eq(1)
+    assumes = {}
+    bads = {}
     covers = {}
+    cc_ = monitors.StreamContract(port.cmd.valid, port.cmd.ready, [port.cmd.we, port.cmd.addr])
+    cw_ = monitors.StreamContract(port.wdata.valid, port.wdata.ready, [port.wdata.data, port.wdata.we])
+    top.submodules += cc_, cw_
+    assumes["user_cmd_held_until_accepted"] = cc_.ok
+    assumes["user_wdata_held_until_taken"] = cw_.ok
+    e_acc = Signal()
+    e_dt = Signal()
+    top.comb += [e_acc.eq(port.cmd.valid & port.cmd.ready), e_dt.eq(port.wdata.valid & port.wdata.ready)]
+    owed = Signal(2)          # write commands accepted whose data beat has not been taken yet (the bridge is serial: 0 or 1)
+    e_hit = Signal()          # ... and that command addresses the watched word
+    top.sync += [owed.eq(owed + (e_acc & port.cmd.we) - e_dt), If(e_acc & port.cmd.we, e_hit.eq(port.cmd.addr == WA))]
+    a1 = Signal()
+    top.comb += a1.eq(~port.wdata.valid | (owed != 0) | (port.cmd.valid & port.cmd.we))
+    assumes["user_offers_a_data_beat_only_for_a_presented_or_accepted_write"] = a1
+    wr_hit = Signal()
+    top.comb += wr_hit.eq(e_dt & Mux(owed != 0, e_hit, port.cmd.addr == WA) & memstub.bit_of(port.wdata.we, WL, nb))
+    top.sync += If(wr_hit, ref.eq(memstub.byte_of(port.wdata.data, WL, nb)))
+    r_pend = Signal()
+    r_hit = Signal()
+    top.sync += [If(port.rdata.valid, r_pend.eq(0)), If(e_acc & ~port.cmd.we, r_pend.eq(1), r_hit.eq(port.cmd.addr == WA))]
+    rd_beat = Signal()
+    top.comb += rd_beat.eq(port.rdata.valid & r_pend & r_hit)
+    sb_ = Signal(name_override="bad_read_returns_wrong_byte")
+    top.comb += sb_.eq(rd_beat & (memstub.byte_of(port.rdata.data, WL, nb) != ref))
+    bads["read_returns_wrong_byte"] = sb_
+    late = Signal()
+    age_ = Signal(3)
+    top.sync += If(owed != 0, age_.eq(Mux(age_ == 7, 7, age_ + 1))).Else(age_.eq(0))
+    top.comb += late.eq(e_dt & (age_ >= 3))
+    env.wr_hit, env.rd_watched_beat = wr_hit, rd_beat
     ack_go = Signal(name_override="slave_ack_go")
     other = Signal(dw, name_override="slave_dat_r_other")
     inputs.update({"slave_ack_go": ack_go, "slave_dat_r_other": other})
@@ -194,6 +229,11 @@ def n2w_bench(name, dw=32, base=0, addressing="word", aw_native=6):
     cv = Signal()
     top.comb += cv.eq(env.rd_watched_beat & sw.out)
     covers["watched_byte_read_back_after_write"] = cv
+    sl_ = monitors.Sticky(late)
+    top.submodules += sl_
+    cv3 = Signal()
+    top.comb += cv3.eq(wb.ack & sl_.out)
+    covers["access_acknowledged_after_a_write_whose_data_came_3_cycles_late"] = cv3
     b = bmc.Bench(name, top, inputs, consts={"WA": WA, "WL": WL}, free_init={"mem_byte": mem, "ref_byte": ref},
                   init_assume=[mem == ref], assumes=assumes, bads=bads, covers=covers,
                   info=dict(dw=dw, base=base, addressing=addressing, reverse_bridge=True))
@@ -233,7 +273,8 @@ def run(ctx):
     ctx.assume("benches without the 'abortw_' prefix: the master aborts only read accesses (see the known finding on aborted writes)")
     ctx.assume("an aborted write makes the watched byte's expected value unknown until the next acknowledged write to it; flush "
                "visibility at the native side when cyc drops is not covered")
-    ctx.assume("reverse bridge (native2wishbone_* benches): native master contract as in C07; the Wishbone slave acknowledges any "
+    ctx.assume("reverse bridge (native2wishbone_* benches): native command and write-data streams independent (data before, with or "
+               "any time after its command, held until taken); the Wishbone slave acknowledges any "
                "presented access whenever it likes (combinational ack), stores one watched byte; equal widths (the bridge asserts ratio 1)")
     for n, (kw, kq, kt, tiers) in CONFIGS.items():
         if ctx.only and not ctx.only.search(n):
